@@ -2,7 +2,8 @@
    Networks: Model/Pipelines.v. "Partial" in DESIGN.md's sense: channel hand-off, WaitGroup,
    context cancellation and goroutine exit are primitives of the model. *)
 From FunV Require Import Base.Tac Base.ListX Model.Pipelines
-  Proofs.Pipelines_conserve Proofs.Pipelines_quiesce Proofs.Pipelines_nets Proofs.Pipelines_complete.
+  Proofs.Pipelines_conserve Proofs.Pipelines_quiesce Proofs.Pipelines_nets Proofs.Pipelines_complete Proofs.Pipelines_closer
+  Proofs.Pipelines_loops Proofs.Pipelines_release.
 
 (* (iii) a goroutine blocked at a ctx-guarded select whose context is cancelled can take a step *)
 Theorem C04_ctx_guarded_enabled :
@@ -74,3 +75,69 @@ Theorem C04_finite_input_eof_partial :
     all_done s /\ consumer_done s /\ s_deliv s = input.
 Proof. exact sp_quiescent_done. Qed.
 Print Assumptions C04_finite_input_eof_partial.
+
+(* loops that can retry without blocking (GenerateParallel's worker: generator fails, ContinueOnError /
+   ContinueOnPanic -> skip -> call again): the static check loops_guarded - every jump of an instruction
+   that does not consult a context goes forward or lands on one that does (a select with ctx.Done,
+   wg.Wait(ctx), an explicit ctx.Err() test; a call of user code does NOT count) - holds for every
+   construct and every n ... *)
+Theorem C04_loops_ctx_guarded_constructs : forall K, loops_guarded (net_of K) = true.
+Proof. exact loops_guarded_constructs. Qed.
+Print Assumptions C04_loops_ctx_guarded_constructs.
+
+(* ... and in any network that passes it a goroutine executes at most |its program| instructions between
+   two consultations of a context *)
+Theorem C04_loops_ctx_guarded :
+  forall N p arms s s',
+    wf_net N = true -> loops_guarded N = true -> ginv N s -> own_blind_run N p arms s = Some s' ->
+    length arms <= match nth_error (n_procs N) p with Some d => length (d_prog d) | None => 0 end.
+Proof. exact blind_run_bounded. Qed.
+Print Assumptions C04_loops_ctx_guarded.
+
+(* the worker WITHOUT the ctx.Err() test of the wrapper is rejected by the check, and rightly: after the
+   consumer took both values and called Close its two workers are still going round 3000 steps later,
+   while with the test the same scenario ends with nothing left *)
+Theorem C04_unguarded_retry_loop_refuted :
+  loops_guarded (gen_nocheck_net 2 GSkip) = false /\
+  (let N := gen_nocheck_net 2 GSkip in
+   let s := scenario N (gen_init 2 [1; 2]%Z) 3000 0 true (Some 2) [LClose 1] in leaks N s = 2 /\ quiescentb N s = false) /\
+  (let N := gen_net 2 GSkip in
+   let s := scenario N (gen_init 2 [1; 2]%Z) 3000 0 true (Some 2) [LClose 1] in
+   leaks N s = 0 /\ stuck_users N s = 0 /\ quiescentb N s = true /\ s_deliv s = [1; 2]%Z).
+Proof. split; [exact nocheck_rejected|split; [exact nocheck_spins|exact check_stops_the_retry_loop]]. Qed.
+Print Assumptions C04_unguarded_retry_loop_refuted.
+
+(* Split(n), one consumer per output, each with its own context: once the splitter has been started and the
+   context it runs under (that of the output advanced first) has ended - the output was closed or its context
+   cancelled - at quiescence NOTHING runs: the consumers of the other outputs, whose contexts are live, have
+   returned (the splitter's deferred pipe.Close is on its cancellation path too) *)
+Theorem C04_split_others_released :
+  forall n l s,
+    reach (split_net n) (split_init n l) s -> quiescent (split_net n) s ->
+    (exists pr, nth_error (s_procs s) 1 = Some pr /\ p_st pr <> PNotStarted /\ (In (p_ctx pr) (s_canc s) \/ In 0 (s_canc s))) ->
+    all_done s.
+Proof. exact split_others_released. Qed.
+Print Assumptions C04_split_others_released.
+
+(* BufferedChannel / Channel with a receiver that ranges over the channel (no context of its own): once the
+   context the channel was built with is cancelled, at quiescence the pump has gone, the receiver has left
+   its loop, and the channel is closed *)
+Theorem C04_range_receiver_released :
+  forall cap input s,
+    reach range_net (range_init cap input) s -> quiescent range_net s -> In 1 (s_canc s) ->
+    all_done s /\ closedb s 0 = true.
+Proof. exact range_receiver_released. Qed.
+Print Assumptions C04_range_receiver_released.
+
+(* what a PostHook that runs its hook only when the worker returned nil does (the error exits of the pump go
+   straight to the return): Split(2) - the consumer of output 1 is parked for ever after output 0 was closed;
+   the ranging receiver never leaves its loop. With the close on every exit path both are released. *)
+Theorem C04_close_skipped_on_error_path_refuted :
+  (let N := split_noclose_net 2 in
+   let s := run N 500 0 true None (apply N [LClose 3] (apply N [LStep 3 false; LStep 3 false; LStep 1 false; LRdv 1 3; LStep 3 false] (split_init 2 [1; 2; 3]%Z))) in
+   quiescentb N s = true /\ stuck_users N s = 1 /\ leaks N s = 0 /\ In 3 (s_canc s)) /\
+  (let N := range_noclose_net in
+   let s := scenario N (range_init 1 [1; 2; 3; 4]%Z) 500 0 true (Some 2) [LCancel 1] in
+   quiescentb N s = true /\ stuck_users N s = 1 /\ closedb s 0 = false).
+Proof. split; [exact split_noclose_stuck|exact range_noclose_stuck]. Qed.
+Print Assumptions C04_close_skipped_on_error_path_refuted.
